@@ -77,6 +77,11 @@ const EventDidNotMatch = -1
 func (satisfier *CatchEventSatisfier) Satisfy(ev event.IEvent) (matched bool, chain int) {
 	chain = EventDidNotMatch
 	for i := range satisfier.eventDefinitionInstances {
+		// a definition whose instance could not be built (e.g. a timer
+		// definition without date, cycle or duration) can never be matched
+		if satisfier.eventDefinitionInstances[i] == nil {
+			continue
+		}
 		if ev.MatchesEventInstance(satisfier.eventDefinitionInstances[i]) {
 			if !satisfier.ParallelMultiple() || satisfier.len == 1 {
 				chain = 0
